@@ -75,6 +75,10 @@ def gen_atom(rng, reqs, listeners, ports):
     if k == 8:
         p = rng.choice(ports + [1])
         return 'request.target.port == %d' % p, lambda r: r.tport == p
+    if k == 9 and rng.random() < 0.5:
+        # members that are expressions, not literals
+        p = rng.choice(ports)
+        return 'request.target.port _: [request.source.port, (%d - 1) + 1, 0 - 1]' % p, lambda r: r.tport == r.src_port or r.tport == p
     if k == 9:
         ps = rng.sample(ports, 2) + [7]
         return 'request.target.port _: [%s]' % ", ".join(map(str, ps)), lambda r: r.tport in ps
